@@ -192,47 +192,65 @@ def c10_2(ctx: Ctx) -> RuleResult:
     X = ctx.X
     f = bound_handler(ctx)
     vp, lo, up, ty = (("param", f.qualname, p) for p in f.positional[:4])
-    helpers = list(f.nested.values())
-    n = 0
-    for h in helpers:
-        rt = norm(X.return_term(h))
-        hp = [("param", h.qualname, p) for p in h.positional]
-        if len(hp) != 4:
+    # every mirroring step in the value the handler returns (helpers seen through, loops followed)
+    rt = X.force_inline(X.return_term(f), f)
+    seen = set()
+    steps = []
+    for s_ in X.closure(rt):
+        if s_[0] == "call" and s_[1][0] == "func":
+            # a nested helper that was not inlined (e.g. recursive): look at its own return value
             continue
-        v_, m_, c_, b_ = hp
-        ref = call("numpy.where", ("binop", "&", c_, m_), add(neg(v_), mul(C(2), b_)), v_)
-        ok = match(rt, ref) is not None
-        res.add(h, h.node, "mirror(v, mask, violated, bound) == where(mask & violated, 2*bound - v, v)", ok, "" if ok else f"mirror is `{show(rt, 120)}`", construct=f"{h.name}: definition")
-        for c in calls_in(f):
-            t = X.at(f, c)
-            if t[0] == "call" and t[1] == ("func", h.qualname):
-                n += 1
-                a_v, a_m, a_c, a_b = t[2]
-                nc = norm(a_c)
-                # violated test: v < lower with lower | upper < v with upper
-                if nc[0] == "cmp" and nc[1] == "<":
-                    if nc[3] == lo:
-                        want = lo
-                    elif nc[2] == up:
-                        want = up
-                    else:
-                        want = None
-                    ok = want is not None and a_b == want
-                else:
-                    ok = False
-                res.add(f, c, "the violated-bound test and the bound used for mirroring are the same bound", ok,
-                        "" if ok else f"condition `{show(a_c, 50)}` is mirrored at `{show(a_b, 30)}`: values are reflected at the wrong bound", construct=f"{f.name}: {norm_stmt(c)[:60]}")
-                # mask restricts to MIRROR elements
-                mk = [s for s in X.closure(a_m) if s[0] == "cmp" and s[1] == "==" and s[3][0] == "global" and s[3][1].startswith(BT + ".")]
-                ok = bool(mk) and all(s[3][1].endswith("MIRROR_BOTH") and s[2] == ty for s in mk)
-                res.add(f, c, "mirroring is restricted to elements of type MIRROR_BOTH", ok, "" if ok else "mirror mask is not the MIRROR_BOTH type test", construct=f"{f.name}: mask of {norm_stmt(c)[:40]}")
+        n_ = norm(s_)
+        if n_ in seen or n_[0] != "call" or n_[1] != G("numpy.where") or len(n_[2]) != 3:
+            continue
+        seen.add(n_)
+        m = match(n_, call("numpy.where", V("c"), add(neg(V("v")), mul(C(2), V("b"))), V("v")))
+        if m is None:
+            # a where() that is not a mirroring step (e.g. the final selection by type) is not an instance
+            a_ = n_[2][1]
+            if a_[0] == "binop" and a_[1] in ("+", "*") and any(y[0] == "binop" and y[1] == "*" and C(2) in (y[2], y[3]) for y in (a_, a_[2], a_[3])):
+                steps.append((n_, None))
+            continue
+        steps.append((n_, m))
+    n = 0
+    for n_, m in steps:
+        if m is None:
+            res.add(f, f.node, "mirror step == where(mask & violated, 2*bound - v, v)", False, f"mirror step is `{show(n_, 120)}`", construct=f"{f.name}: mirror step shape")
+            continue
+        conj = []
+
+        def flat(c):
+            if c[0] == "binop" and c[1] == "&":
+                flat(c[2])
+                flat(c[3])
+            else:
+                conj.append(c)
+
+        flat(m["c"])
+        # the violated test compares the value that is mirrored (the other `<` conjuncts belong to the mask)
+        viol = [c for c in conj if c[0] == "cmp" and c[1] == "<" and ((c[2] == m["v"] and c[3] in (lo, up)) or (c[3] == m["v"] and c[2] in (lo, up)))]
+        which = None
+        if len(viol) == 1 and viol[0][2] == m["v"] and viol[0][3] == lo:
+            which = ("lower", lo)
+        elif len(viol) == 1 and viol[0][3] == m["v"] and viol[0][2] == up:
+            which = ("upper", up)
+        if which is None:
+            res.add(f, f.node, "the violated-bound test of a mirror step is `v < lower` or `v > upper`", False, f"condition `{show(m['c'], 80)}`", construct=f"{f.name}: mirror condition {show(m['c'], 40)}")
+            continue
+        n += 1
+        ok = m["b"] == which[1]
+        res.add(f, f.node, "the violated-bound test and the bound used for mirroring are the same bound", ok,
+                "" if ok else f"condition `{show(viol[0], 50)}` is mirrored at `{show(m['b'], 30)}`: values are reflected at the wrong bound", construct=f"{f.name}: mirror at {which[0]} bound")
+        mk = [x for c in conj for x in X.closure(c) if x[0] == "cmp" and x[1] == "==" and ((x[3][0] == "global" and x[3][1].startswith(BT + ".")) or (x[2][0] == "global" and x[2][1].startswith(BT + ".")))]
+        ok = bool(mk) and all((x[3] == G(f"{BT}.MIRROR_BOTH") and x[2] == ty) or (x[2] == G(f"{BT}.MIRROR_BOTH") and x[3] == ty) for x in mk)
+        res.add(f, f.node, "mirroring is restricted to elements of type MIRROR_BOTH", ok, "" if ok else "mirror mask is not the MIRROR_BOTH type test", construct=f"{f.name}: mask of mirror at {which[0]} bound")
     if n < 2:
-        raise AnalysisError("mirror calls not found in the bound handler")
+        raise AnalysisError("mirror steps (where(mask & violated, 2*bound - v, v) for the lower and the upper bound) not found in the bound handler")
     # clip roles
-    clips = [s for s in subterms(X.return_term(f)) if s[0] == "call" and s[1] == G("numpy.clip")]
+    clips = [s for s in subterms(rt) if s[0] == "call" and s[1] == G("numpy.clip")]
     ok = bool(clips) and all(len(s[2]) == 3 and s[2][1] == lo and s[2][2] == up for s in clips)
     res.add(f, f.node, "clip(value, lower_bounds, upper_bounds) argument roles", ok, "" if ok else "clip bounds are swapped or foreign", construct=f"{f.name}: clip roles")
-    res.floor = 6
+    res.floor = 5
     return res
 
 
@@ -324,13 +342,13 @@ def c10_4(ctx: Ctx) -> RuleResult:
     cfg = cfg_of(ctx.repo, f)
     checks = []
     for n in nodes_in(f, ast.If):
-        if "isfinite" in ast.unparse(n.test) and any(isinstance(x, ast.Raise) for s in n.body for x in ast.walk(s)):
+        if contains(X.value_at(f, n.test), lambda s_: s_[0] == "call" and s_[1] == G("numpy.isfinite")) and any(isinstance(x, ast.Raise) for s in n.body for x in ast.walk(s)):
             checks.append(n)
     ok = False
     if checks and site is not f.node:
         cn = {x for c_ in checks for x in cfg.node_containing(c_.test)}
         ok = all(any(cfg.dominates(c_, s) for c_ in cn) for s in cfg.node_containing(site))
-        t = X.at(f, checks[0].test)
+        t = X.value_at(f, checks[0].test)
         ok = ok and contains(t, lambda s: s[0] == "attr" and s[2] == "lower_bounds") and contains(t, lambda s: s[0] == "attr" and s[2] == "upper_bounds")
     res.add(f, checks[0] if checks else f.node, "finite lower and upper bounds of the relative variables are required before scaling", ok,
             "" if ok else "relative magnitudes can be computed from infinite bounds (inf/NaN magnitudes)", construct=f"{f.name}: finite bounds check")
